@@ -222,3 +222,107 @@ func TestVerif_C04C18C07_StringAxioms(t *testing.T) {
 	res.sample(fmt.Sprintf("%d strings, e.g. %q %q", len(strs), strs[7], strs[len(strs)-1]))
 	res.emit(t)
 }
+
+// TestVerif_C04C06_TextScanner: the text/scanner-based default lexer: token values are the input bytes at their
+// offsets, positions are exact, EOF sits at the end, and a lexing error is a *lexer.Error located inside the input
+// with line and column consistent with its offset.
+func TestVerif_C04C06_TextScanner(t *testing.T) {
+	res := &verifResult{Check: "text/scanner lexer", Property: "C04 C06", Exhaustive: true,
+		Bound: "all inputs of length <= 4 (thorough: 5) over {a, 1, space, newline, \", ', `, /, *, \\xc3, \\xa9, \\xff, NUL}, through LexString, LexBytes and Lex(reader)",
+		Rule: "distinct inputs; non-trivial = more than one token or an error"}
+	alpha := []string{"a", "1", " ", "\n", `"`, "'", "`", "/", "*", "\xc3", "\xa9", "\xff", "\x00"}
+	maxLen := 4
+	if verifThorough() {
+		maxLen = 5
+	}
+	strs := []string{""}
+	prev := []string{""}
+	for l := 1; l <= maxLen; l++ {
+		var next []string
+		for _, p := range prev {
+			for _, a := range alpha {
+				next = append(next, p+a)
+			}
+		}
+		strs = append(strs, next...)
+		prev = next
+	}
+	oracle := func(in string, off int) (int, int) {
+		line := 1 + strings.Count(in[:off], "\n")
+		ls := strings.LastIndex(in[:off], "\n") + 1
+		return line, 1 + utf8.RuneCountInString(in[ls:off])
+	}
+	run := func(lex Lexer, in string) (desc string, ntok int, failed bool) {
+		var sb strings.Builder
+		off := 0
+		for i := 0; i <= len(in)+2; i++ {
+			tok, err := lex.Next()
+			if err != nil {
+				le, ok := err.(*Error)
+				if !ok {
+					res.violate("input %q: lexing error %T is not a *lexer.Error", in, err)
+					return sb.String(), ntok, true
+				}
+				fmt.Fprintf(&sb, "error@%d:%d:%d %s", le.Pos.Offset, le.Pos.Line, le.Pos.Column, le.Msg)
+				if le.Pos.Offset < 0 || le.Pos.Offset > len(in) {
+					res.violate("input %q: lexing error %q is located at offset %d, outside the input", in, le.Error(), le.Pos.Offset)
+					return sb.String(), ntok, true
+				}
+				l, c := oracle(in, le.Pos.Offset)
+				if le.Pos.Line != l || le.Pos.Column != c || le.Pos.Filename != "file" {
+					res.violate("input %q: lexing error %q has position %s:%d:%d at offset %d, where line:column is %d:%d", in, le.Error(), le.Pos.Filename, le.Pos.Line, le.Pos.Column, le.Pos.Offset, l, c)
+				}
+				return sb.String(), ntok, true
+			}
+			fmt.Fprintf(&sb, "%d:%q@%d ", tok.Type, tok.Value, tok.Pos.Offset)
+			if tok.EOF() {
+				if tok.Pos.Offset != len(in) {
+					res.violate("input %q: EOF token at offset %d, want %d", in, tok.Pos.Offset, len(in))
+				}
+				return sb.String(), ntok, false
+			}
+			ntok++
+			o := tok.Pos.Offset
+			if o < off || o+len(tok.Value) > len(in) || in[o:o+len(tok.Value)] != tok.Value || tok.Value == "" {
+				res.violate("input %q: token %q claims offset %d (previous token ended at %d)", in, tok.Value, o, off)
+				return sb.String(), ntok, false
+			}
+			l, c := oracle(in, o)
+			if tok.Pos.Line != l || tok.Pos.Column != c || tok.Pos.Filename != "file" {
+				res.violate("input %q: token %q at offset %d has position %s:%d:%d, exact is file:%d:%d", in, tok.Value, o, tok.Pos.Filename, tok.Pos.Line, tok.Pos.Column, l, c)
+			}
+			off = o + len(tok.Value)
+		}
+		res.violate("input %q: no EOF within %d tokens", in, len(in)+3)
+		return sb.String(), ntok, false
+	}
+	for _, in := range strs {
+		res.Evaluations++
+		func() {
+			defer func() {
+				if r := recover(); r != nil {
+					res.violate("input %q: the text/scanner lexer panicked: %v", in, r)
+				}
+			}()
+			a, n, failed := run(LexString("file", in), in)
+			if n > 1 || failed {
+				res.Distinct++
+			}
+			if b, _, _ := run(LexBytes("file", []byte(in)), in); b != a {
+				res.violate("input %q: LexBytes gives %s, LexString gives %s", in, b, a)
+			}
+			if c, _, _ := run(Lex("file", strings.NewReader(in)), in); c != a {
+				res.violate("input %q: Lex(reader) gives %s, LexString gives %s", in, c, a)
+			}
+			if l, err := TextScannerLexer.Lex("file", strings.NewReader(in)); err != nil {
+				res.violate("input %q: TextScannerLexer.Lex: %v", in, err)
+			} else if d, _, _ := run(l, in); d != a {
+				res.violate("input %q: TextScannerLexer.Lex gives %s, LexString gives %s", in, d, a)
+			}
+			if res.Evaluations%2801 == 7 {
+				res.sample(fmt.Sprintf("%q -> %s", in, a))
+			}
+		}()
+	}
+	res.emit(t)
+}
